@@ -6,5 +6,8 @@ CONSTANTS
   Vias <- ViasHist
   MaxInject = 3
   Spoof = FALSE
+  Confs <- ConfsSw
+  Stores <- StoresNone
+  Ancs <- AncsTs
   RestoreAtTop = FALSE
 INVARIANTS HistoryIndependence
